@@ -97,6 +97,7 @@ class _Marker:
         return "<%s>" % self.name
 
 
+_MISSING_ = object()
 TZIFY = _Marker("tzify")
 COMP = _Marker("component")
 
@@ -348,6 +349,37 @@ class Interp:
             self.fail(e, "unknown name")
         if isinstance(e, ast.IfExp):
             return self.ev(e.body) if self.truth(self.ev(e.test), e.test) else self.ev(e.orelse)
+        if isinstance(e, ast.NamedExpr):
+            if not isinstance(e.target, ast.Name):
+                self.fail(e, "walrus target")
+            v = self.ev(e.value)
+            self.env[e.target.id] = v
+            return v
+        if isinstance(e, ast.Call) and isinstance(e.func, ast.Name) and e.func.id in ("any", "all") and e.func.id not in self.env \
+                and len(e.args) == 1 and not e.keywords and isinstance(e.args[0], (ast.GeneratorExp, ast.ListComp)) \
+                and len(e.args[0].generators) == 1 and isinstance(e.args[0].generators[0].target, ast.Name) and not e.args[0].generators[0].is_async:
+            g = e.args[0].generators[0]
+            it = self.ev(g.iter)
+            if not isinstance(it, list):
+                self.fail(e, "any/all over non-list")
+            want_any = e.func.id == "any"
+            saved = self.env.get(g.target.id, _MISSING_)
+            try:
+                for el in it:
+                    self.env[g.target.id] = el
+                    if not all(self.truth(self.ev(c_), c_) for c_ in g.ifs):
+                        continue
+                    t_ = self.truth(self.ev(e.args[0].elt), e.args[0].elt)
+                    if want_any and t_:
+                        return True
+                    if not want_any and not t_:
+                        return False
+                return not want_any
+            finally:
+                if saved is _MISSING_:
+                    self.env.pop(g.target.id, None)
+                else:
+                    self.env[g.target.id] = saved
         if isinstance(e, ast.UnaryOp) and isinstance(e.op, ast.Not):
             return not self.truth(self.ev(e.operand), e)
         if isinstance(e, ast.BoolOp):
